@@ -179,6 +179,8 @@ def _r201(ck, prog, cfg, seen, built):
                 cond = _cond_ok(fid, built)
                 if "should_flush" in exc:
                     cond = cond and not should_flush_reach
+                if "tombstone cutoff" in exc:
+                    cond = cond and _compaction_clock_harmless(prog)
                 if cond:
                     ck.ok("R20.1", key, "accepted: " + exc)
                     continue
@@ -446,3 +448,48 @@ def _rng_over_result(prog, g, f):
             if sk["kind"] == "rng-draw":
                 out.append((sk["ln"], sk["what"]))
     return out
+
+
+def _compaction_clock_harmless(prog):
+    """side condition of the Compactor::new exception: in Compactor::compact every ordering comparison that involves a value derived from the
+    (production) time source has a Lamport logical time on its other side - the comparison the open C13 R13.2 finding describes, whose outcome
+    does not depend on when the run happens.  A wall-clock value compared with anything else (a TTL, an object's creation time) makes the
+    compaction outcome depend on real time."""
+    from . import c13
+    try:
+        fn = prog.one(c13.COMPACT)
+    except Exception:
+        return False
+    tainted, names = c13._wall_clock_locals(fn)
+    from .c10 import _taint
+    for f in [fn] + prog.children(fn):
+        kid_taint = set()
+        if f is not fn:
+            seeds = set()
+            for b, i, st in f.stmts():
+                if st["rv"]["k"] in ("use", "ref") and st["lhs"].get("l") is not None and not st["lhs"].get("p"):
+                    s0 = src_of_operand(f, st["rv"]["a"], through_calls=TRANSPARENT) if st["rv"]["k"] == "use" and "c" not in st["rv"]["a"] else None
+                    if s0 is not None and s0.kind == "path" and s0.root in names:
+                        seeds.add(st["lhs"]["l"])
+            kid_taint = _taint(f, seeds) if seeds else set()
+        for b, i, st in f.stmts():
+            rv = st["rv"]
+            if rv["k"] != "bin" or rv["op"] not in ("Lt", "Le", "Gt", "Ge"):
+                continue
+            sa = src_of_operand(f, rv["a"], through_calls=TRANSPARENT)
+            sb = src_of_operand(f, rv["b"], through_calls=TRANSPARENT)
+
+            def is_wall(s_, o):
+                p_ = op_place(o)
+                if f is fn and p_ is not None and p_["l"] in tainted:
+                    return True
+                if f is not fn and p_ is not None and p_["l"] in kid_taint:
+                    return True
+                return s_.kind == "path" and (s_.root in names) and f is not fn
+
+            def is_logical(s_):
+                return s_.fields[-2:] == ("timestamp", "time") or (s_.kind == "path" and s_.fields[-1:] == ("time",) and "timestamp" in s_.fields)
+            wa, wb = is_wall(sa, rv["a"]), is_wall(sb, rv["b"])
+            if (wa and not is_logical(sb)) or (wb and not is_logical(sa)):
+                return False
+    return True
